@@ -22,8 +22,8 @@ CHECKS = {
  "C17": ("model_checking", SEQ, "For each of the 4 metadata-history feature combinations: all sequences of length<=3/4 over every metadata write path; current metadata == last-write-wins fold; PIT reads == revision at t (SYNC) or current metadata (DISABLED).", PGSIM_NOTE, "5 Group A"),
  "C18": ("model_checking", SEQ, "All sequences of length<=3/4 over back/future-dated creates, failing creates and metadata-only accounts: listed set, firstUsage (lowered by back-dating), insertionDate immutable, PIT visibility.", PGSIM_NOTE, "5 Group A"),
  "C24": ("exploration", "bounded-exhaustive enumeration of portion vectors x amounts against an arithmetic reference",
-         "Every allotment of length<=4(5) over rationals with denominator<=7(8) incl. zero portions and `remaining` at every position, times 63+ amounts incl. >2^64, allocated by the real Allotment.Allocate and compared with floor+leftover-to-earliest.",
-         "machine.NewAllotment/Allocate called directly; no SQL involved", "5 Group E"),
+         "Every allotment of length<=4(5) over rationals with denominator<=7(8) incl. zero portions and `remaining` at every position, percent literals through the real parser, times boundary amounts (2^31..2^64 +-1, amounts straddling 2^31/2^32/2^53/2^63/2^64 for each numerator, 10^30), allocated by the real Allotment.Allocate and compared with floor+leftover-to-earliest; plus a VM leg: every vector of length<=3 (incl. empty portions, portion variables) compiled as source and destination allotments and run on the real machine, oracle on the postings.",
+         "machine.NewAllotment/Allocate called directly, and the real compiler + machine for the VM leg; no SQL involved", "5 Group E"),
 }
 
 NA_REASON_PENDING = "check not built yet in this round (planned: see DESIGN.md section 5); not claimed"
